@@ -96,7 +96,9 @@ def generate(seed, tier):
             if kind.startswith("str") and n == 0:
                 n = 2
             ops.append({"op": "concat", "a": rng.getrandbits(16), "b": rng.getrandbits(16), "side": side,
-                        "kind": kind, "bits": _bits(rng, n)})
+                        "kind": kind, "bits": _bits(rng, n), "iadd": rng.random() < 0.2})
+            if kind.startswith("str") and rng.random() < 0.4:
+                ops.insert(len(ops) - 1, {"op": "s2a", "kind": kind, "bits": ops[-1]["bits"]})
         elif k == "invert":
             ops.append({"op": "invert", "a": rng.getrandbits(16)})
         elif k == "index":
@@ -112,7 +114,8 @@ def generate(seed, tier):
             ops.append({"op": "compare", "n": rng.choice([1, 2, 5, 16, 33, 128]), "dseed": rng.getrandbits(32),
                         "dom": rng.choice(["nonneg", "nonneg", "nonneg_int", "real", "complex"]), "noise": rng.random() < 0.5,
                         "thr": rng.choice(["pyfloat", "pyint", "npfloat", "list", "array", "len1"]),
-                        "cmp": rng.choice([">", "<"]), "tie": rng.random() < 0.2})
+                        "cmp": rng.choice([">", "<"]), "tie": rng.random() < 0.2,
+                        "scale": rng.choice([1, 1, 1, 1, 1, 1, 1e-200, 1e200, 1e-170, 1e160, 5e9])})
         elif k == "bad_new":
             ops.append({"op": "bad_new", "what": rng.choice(BAD_NEW)})
         elif k == "bad_cat":
@@ -359,7 +362,12 @@ class Machine:
         gb = None if guard is None else guard.copy()
         what = f"concat/{side}/{kind}"
         try:
-            res = (a + other) if side == "r" else (other + a)
+            if side == "r" and op.get("iadd"):
+                t_ = a
+                t_ += other          # augmented assignment must not modify the object `a` still refers to
+                res = t_
+            else:
+                res = (a + other) if side == "r" else (other + a)
         except Exception as e:
             raise Violation("C15/reject", f"{what}: valid concatenation raised {e!r} (a={ma[:8]}, b={mb[:8]})", what)
         self._valid(res, what)
@@ -385,6 +393,21 @@ class Machine:
         if kind == "obj" and eb[0] is a:
             self.rec.probe("self-concatenation a+a")
         return f"ok:{len(exp)}"
+
+    def op_s2a(self, op):
+        """Another part of the program reads the same text as *numbers* (public str2array with a numeric dtype);
+        the text is then used as a bit pattern by the next op."""
+        import opticomlib.utils as ut
+        bits = list(op["bits"]) or [1]
+        s_, _ = _container(op["kind"], bits)
+        if len(bits) > 15 and op["kind"] == "str":
+            return "skip"
+        for dt in (int, float):
+            try:
+                ut.str2array(s_, dt)
+            except Exception:
+                pass
+        return "ok"
 
     def op_bad_cat(self, op):
         ea = self._get(op["a"])
@@ -475,23 +498,39 @@ class Machine:
         else:
             sig = np.round(rs.uniform(-2, 2, n) + 1j * rs.uniform(-2, 2, n), 2)
             noise = np.round(rs.normal(0, 0.3, n) + 1j * rs.normal(0, 0.3, n), 2) if op["noise"] else None
+        sc_ = op.get("scale", 1)
+        if sc_ != 1 and dom == "nonneg":
+            # extreme magnitudes: comparisons must not go through squares (under/overflow, integer wrap)
+            if sig.dtype.kind in "iu":
+                if sc_ == 5e9 and sig.dtype == np.int64:
+                    sig = sig * np.int64(5_000_000_000)
+                    noise = None if noise is None else noise * np.int64(5_000_000_000)
+                else:
+                    sc_ = 1
+            elif sc_ != 5e9:
+                sig = sig * sc_
+                noise = None if noise is None else noise * sc_
+            else:
+                sc_ = 1
+        else:
+            sc_ = 1
         total = sig if noise is None else sig + noise
         tk = op["thr"]
         if tk in ("list", "array"):
-            thr_arr = np.round(rs.uniform(0, 2, n), 2) if op["dom"] != "nonneg_int" else rs.randint(0, 8, n) / 2.0
+            thr_arr = (np.round(rs.uniform(0, 2, n), 2) if op["dom"] != "nonneg_int" else rs.randint(0, 8, n) / 2.0) * sc_
             if op.get("tie") and dom == "nonneg":
                 thr_arr[:: 2] = total[:: 2].real
             thr = thr_arr.tolist() if tk == "list" else thr_arr
-            if op["dom"] == "nonneg_int" and tk == "array" and op["dseed"] % 2 == 0:
+            if op["dom"] == "nonneg_int" and tk == "array" and op["dseed"] % 2 == 0 and sc_ == 1:
                 thr_arr = np.floor(thr_arr)
                 thr = thr_arr.astype(np.uint8)    # unsigned integer threshold array
         else:
-            t = float(np.round(rs.uniform(0, 2), 2)) if op["dom"] != "nonneg_int" else float(rs.randint(0, 8) / 2.0)
+            t = (float(np.round(rs.uniform(0, 2), 2)) if op["dom"] != "nonneg_int" else float(rs.randint(0, 8) / 2.0)) * sc_
             if op.get("tie") and dom == "nonneg":
                 t = float(total[0].real)
             thr_arr = np.full(n, t)
             thr = {"pyfloat": t, "pyint": int(round(t)), "npfloat": np.float64(t), "len1": [t]}[tk]
-            if op["dom"] == "nonneg_int" and tk == "npfloat" and t == int(t) and op["dseed"] % 3 == 0:
+            if op["dom"] == "nonneg_int" and tk == "npfloat" and t == int(t) and op["dseed"] % 3 == 0 and sc_ == 1:
                 thr = np.uint8(int(t))            # unsigned numpy scalar threshold
             if tk == "pyint":
                 thr_arr = np.full(n, float(int(round(t))))
